@@ -313,6 +313,22 @@ func (r *c6Run) buildDest() io.Writer {
 		return &zerolog.TriggerLevelWriter{Writer: b, ConditionalLevel: zerolog.Level(-128), TriggerLevel: zerolog.Level(-128)}
 	case 10:
 		return &zerolog.FilteredLevelWriter{Writer: b, Level: zerolog.DebugLevel}
+	case 14:
+		// a ConsoleWriter (by value) behind SyncWriter: the wrapped writer is the ConsoleWriter,
+		// so its Write - and with it the user's formatter callbacks - is never entered twice at once
+		r.synced = true
+		inFmt := 0
+		return zerolog.SyncWriter(zerolog.ConsoleWriter{Out: a, NoColor: true, TimeFormat: time.RFC3339,
+			FormatPrepare: func(evt map[string]interface{}) error {
+				inFmt++
+				if inFmt > 1 {
+					zsim.Fail("C06.sync_overlap", "two overlapping calls reached a ConsoleWriter wrapped in SyncWriter: its FormatPrepare callback was entered while another call was inside it")
+				}
+				zsim.Yield("FormatPrepare")
+				zsim.Yield("FormatPrepare")
+				inFmt--
+				return nil
+			}})
 	case 13:
 		// a ConsoleWriter whose user-supplied formatters refuse some events (by their id):
 		// a refused event is not written, and nothing of it may show in another event
@@ -569,7 +585,7 @@ func (c06World) Run(prop string, ch *zsim.Choices, trace bool) *RunResult {
 		zerolog.ErrorStackMarshaler = func(err error) interface{} { return "STACK" }
 		r.sinks[0] = &c6Sink{r: r, idx: 0}
 		r.sinks[1] = &c6Sink{r: r, idx: 1}
-		r.dest = ch.Weighted(4, 3, 2, 2, 1, 1, 1, 2, 2, 1, 1, 1, 1, 1)
+		r.dest = ch.Weighted(4, 3, 2, 2, 1, 1, 1, 2, 2, 1, 1, 1, 1, 1, 1)
 		r.sinkBeh = ch.Weighted(4, 2, 2)
 		// logger derivations are drawn once and built twice: one set of loggers and
 		// destination wrappers for the reference (solo) runs, a fresh identical set
